@@ -1,3 +1,4 @@
+import Firebolt.TransExpected
 import Firebolt.Properties.TransBase
 import Firebolt.Spec.Receiver
 import Firebolt.Generated.Source
@@ -474,8 +475,8 @@ theorem translated_mrInitBufferBody (σ : Env) :
 /-- the receiver's deliverMessage, translated: the subscribers' notifier is called exactly once per message, whatever it
 returns (a failing subscriber does not cause a second delivery to the others) -/
 theorem translated_mrDeliverMessage (σ : Env) :
-    obs Trans.mrDeliverMessage σ = ⟨[("r.notifier", [σ "msg"])], none, false⟩ := by
-  by_cases h : σ "r.notifier#0" = 0 <;> minigo_simp [Trans.mrDeliverMessage, h]
+    obs Trans.mrDeliverMessage σ = TransExpected.mrDeliverMessage σ := by
+  by_cases h : σ "r.notifier#0" = 0 <;> minigo_simp [TransExpected.mrDeliverMessage, Trans.mrDeliverMessage, h]
 
 end Translated
 
